@@ -91,8 +91,27 @@ func StartStallWatchdog(prop string, limit time.Duration) {
 	}()
 }
 
+// WorkerPanic, when set, is asked what to do with a panic that escaped a
+// Parallel work unit (true: the unit is abandoned and the run goes on).  Every
+// unit owns its monitors exclusively, so on code that keeps CPUs apart this
+// never happens; an emulator change that lets one CPU write through another
+// CPU's memory can corrupt a monitor's bookkeeping after the violation itself
+// has been recorded.
+var WorkerPanic func(shard int, p interface{}) bool
+
 // Parallel runs fn(worker, shard) for shard in [0,n) on Workers() goroutines.
 func Parallel(n int, fn func(shard int)) {
+	inner := fn
+	fn = func(s int) {
+		defer func() {
+			if p := recover(); p != nil {
+				if WorkerPanic == nil || !WorkerPanic(s, p) {
+					panic(p)
+				}
+			}
+		}()
+		inner(s)
+	}
 	parallelLive.Add(1)
 	defer parallelLive.Add(-1)
 	var wg sync.WaitGroup
